@@ -41,7 +41,8 @@ AlgOK(o) ==
     \* every side consumer observes what the chain was worth when its clone was made
     /\ \A i \in 1..Len(o.sides) :
           LET sd == o.sides[i] IN
-          IF sd.pos <= Len(t.ops)
+          IF sd.small THEN sd.res = "ERR"        \* turned away by its own size limit (or by the chain's error): never data
+          ELSE IF sd.pos <= Len(t.ops)
           THEN sd.pos \in SidePositions(t) /\ sd.res = OutcomeAfter(t, sd.pos).res /\ sd.code \in OutcomeAfter(t, sd.pos).codes
           ELSE sd.res = after.res /\ sd.code \in after.codes
     /\ Len(o.sides) = Cardinality(SidePositions(t)) + (IF o.method \in {"CloneStreamBoth", "CloneCopyBoth"} THEN 1 ELSE 0)
